@@ -681,6 +681,11 @@ CHECKS = {
             "first, so such calls are issued as a one-unit ExecMulti; rule (5) is therefore exercised on the single-node part only; at most 4 nodes; no slot migration; "
             "Lua.maxp and every multiplexer's parallelism are pinned to 16",
             "ConnLifetime is not set (its re-send of outstanding commands is the known finding under C03)",
+            "restrictions that keep a run a function of its seed (each found by the determinism self-test): no call deadlines (a synchronous pipe arms the connection's "
+            "read deadline and the context's timer for the same instant); MaxFlushDelay 0; queues of 16-64 slots (never full); one wire per node in plans that restart a "
+            "node; the dead-pipe clean-up loop is run to its end inside the step in which the connection died (sched.Sim.Settle) instead of sleeping a fake millisecond "
+            "per turn; util.FastRand is a function of (seed, step, n); scheduler sleeps are 1 ns longer than announced (sched.Config.TickEpsilon); for cluster plans the "
+            "event-log hash is taken at the end of the workload phase (clusterClient.Close is asynchronous)",
         ],
     },
     "C41": {
